@@ -3,7 +3,7 @@
 patch.diff, demo.rs, notes.md, meta.json (what it breaks, what it needs, what was run, which checks catch it)"""
 import json, os, re, shutil, subprocess, sys
 V = os.path.dirname(os.path.dirname(os.path.abspath(__file__)))
-SEED = '/tmp/seed'
+ROUNDS = [('/tmp/seed', ''), ('/tmp/seed2', 'r2'), ('/tmp/seed3', 'r3')]
 OUT = os.path.join(V, 'seeded')
 MATRIX = '/var/tmp/tau-seed-out'
 
@@ -24,20 +24,27 @@ def main():
     only = sys.argv[1:]
     os.makedirs(OUT, exist_ok=True)
     rows = []
-    for P in sorted(os.listdir(SEED)):
-        wt = os.path.join(SEED, P)
-        if not os.path.isdir(os.path.join(wt, 'SEED')) or (only and P not in only):
+    head = subprocess.run(['git', '-C', '/repo', 'rev-parse', '--short', 'HEAD'], stdout=subprocess.PIPE).stdout.decode().strip()
+    todo = []
+    for SEED, prefix in ROUNDS:
+        if not os.path.isdir(SEED):
             continue
-        for k in sorted(os.listdir(os.path.join(wt, 'SEED'))):
-            sd = os.path.join(wt, 'SEED', k)
-            if not os.path.isfile(os.path.join(sd, 'patch.diff')):
+        for P in sorted(os.listdir(SEED)):
+            wt = os.path.join(SEED, P)
+            if not os.path.isdir(os.path.join(wt, 'SEED')) or (only and (prefix + P) not in only and P not in only):
                 continue
-            name = '%s-%s' % (P, k)
+            for k in sorted(os.listdir(os.path.join(wt, 'SEED'))):
+                sd = os.path.join(wt, 'SEED', k)
+                if os.path.isfile(os.path.join(sd, 'patch.diff')):
+                    todo.append((prefix, P, wt, k, sd))
+    for prefix, P, wt, k, sd in todo:
+        if True:
+            name = '%s%s-%s' % (prefix, P, k)
             notes = open(os.path.join(sd, 'notes.md')).read() if os.path.exists(os.path.join(sd, 'notes.md')) else ''
             feats = ''
             if P == 'C15':
                 feats = '--features ignore_case'
-            if '--features json' in notes and P == 'C11':
+            if P == 'C11' and ('--features json' in notes or 'features json' in notes or 'feature json' in notes):
                 feats = '--features json'
             suite_ok, demo_fail, demo_pass, log = confirm(wt, sd, feats)
             if P == 'C15' and not demo_fail:
@@ -51,6 +58,7 @@ def main():
                 res = json.load(open(rp))
             caught = sorted(p for p, rc in res.items() if rc == 1)
             incon = sorted(p for p, rc in res.items() if rc == 2)
+            ran = sorted(res)
             keep = suite_ok and demo_fail and demo_pass
             meta = {
                 'property': P, 'seed': name,
@@ -59,10 +67,11 @@ def main():
                 'confirmed_in_scratch_worktree': {'existing_suite_passes_with_change': suite_ok, 'demo_fails_with_change': demo_fail,
                                                   'demo_passes_without_change': demo_pass, 'demo_features': feats},
                 'what_was_run': ['tools/confirm_seed.sh %s %s %s' % (wt, sd, feats),
-                                 'tools/seed_matrix.py (every check, quick tier, change applied in the scratch worktree via TAU_REPO)'],
+                                 'tools/seed_matrix.py --checks=own,C01,C02,C12,C17 (quick tier, change applied in the scratch worktree via TAU_REPO)'],
+                'applies_to_repo_head': head, 'checks_run_against_it': ran,
                 'caught_by': caught, 'inconclusive': incon, 'kept': keep,
             }
-            rows.append((name, keep, caught, incon))
+            rows.append((name, P, keep, caught, incon, ran))
             if keep:
                 d = os.path.join(OUT, name)
                 os.makedirs(d, exist_ok=True)
@@ -75,10 +84,12 @@ def main():
         fh.write('# Seeded changes (written by sub-agents from the property text only) and the checks that catch them\n\n')
         fh.write('Each change compiles, passes the pinned suite, and fails its own demonstration (confirmed in a scratch worktree).\n')
         fh.write('`caught by` = checks that exit 1 with a VIOLATION line when the change is applied (quick tier).\n\n')
-        fh.write('| seed | property | caught by | inconclusive (exit 2) |\n|---|---|---|---|\n')
-        for name, keep, caught, incon in rows:
+        fh.write('`checks run` = the checks that were run against the change (its own property\'s check and the generalists).\n')
+        fh.write('Seeds named rN... come from the N-th round of sub-agents. Apply with `git -C /repo apply seeded/<seed>/patch.diff`, undo with `git -C /repo checkout -- .`.\n\n')
+        fh.write('| seed | property | caught by | inconclusive (exit 2) | checks run |\n|---|---|---|---|---|\n')
+        for name, P, keep, caught, incon, ran in rows:
             if keep:
-                fh.write('| %s | %s | %s | %s |\n' % (name, name.split('-')[0], ', '.join(caught) or '**none**', ', '.join(incon)))
+                fh.write('| %s | %s | %s | %s | %s |\n' % (name, P, ', '.join(caught) or '**none**', ', '.join(incon), ', '.join(ran)))
     print('done')
 
 
